@@ -23,6 +23,7 @@
 import IocProofs.Lemmas.ConcPaths
 import IocProofs.Lemmas.ConcMap
 import IocProofs.Lemmas.ConcLen
+import IocProofs.Lemmas.ConcReg
 import IocProofs.Lemmas.SemSync2
 
 namespace Ioc.C20
@@ -359,5 +360,68 @@ theorem C20_code_LoadOrStoreFn (fv k : Nat) (w : Sem.MapW) :
             | some v => (.tuple [.int v, .bool true], w)
             | none => (.tuple [.int fv, .bool false], { m := ainsert k fv w.m, fCalls := w.fCalls + 1 })) :=
   Sem.sync2_loadOrStoreFn_sem fv k w
+
+/-! ### fifth round: the closing phase is over when Close returns; load-or-store of a definition
+
+`closel`: a failing closer's goroutine reports its error to the (user's) logger between the return of `m.Close()` and the
+deferred `wg.Done()` (app/app.go:163-166) — in the fork/join system the step `called → post`; `reported` counts the failing
+workers that are past it. -/
+
+/-- For every number of closers, every failing subset and every schedule: in every state in which Close has returned, the
+    error report of EVERY failing closer is complete — no goroutine of the closing phase has anything left to say to the
+    logger once the caller continues. -/
+theorem C20_close_reports_before_return (n : Nat) (errs : Nat → Bool) (s : St) (h : Reach closeCfg n errs s)
+    (hret : mainReturned s) : reported n errs s = failing n errs :=
+  reported_all_finished n errs s ((C20_close_drf n errs s h).2 hret)
+
+/-- What the position of Done buys: with `wg.Done()` NOT deferred to the end of the goroutine (Done before the work is
+    finished) there is a schedule in which Close has returned and neither of two failing closers has reported yet. -/
+def earlyDoneCfg : FanCfg := ({ expectedCloseShape with doneDeferredInWorker := false } : CloseShape).cfg
+
+theorem C20_close_report_after_return_counterexample :
+    ∃ s, Reach earlyDoneCfg 2 (fun _ => true) s ∧ mainReturned s ∧
+      reported 2 (fun _ => true) s = 0 ∧ failing 2 (fun _ => true) = 2 := by
+  have hc : (fireAll earlyDoneCfg 2 (fun _ => true) [.main, .main, .main, .w 0, .w 1, .main, .main] init).map
+      (fun s => (s.mainPc, reported 2 (fun _ => true) s)) = some (3, 0) := by decide
+  cases hf : fireAll earlyDoneCfg 2 (fun _ => true) [.main, .main, .main, .w 0, .w 1, .main, .main] init with
+  | none => rw [hf] at hc; cases hc
+  | some s =>
+    rw [hf] at hc
+    simp only [Option.map_some, Option.some.injEq, Prod.mk.injEq] at hc
+    exact ⟨s, fireAll_sound _ _ _ _ _ _ hf, hc.1, hc.2, by decide⟩
+
+/-- `DefinitionRegistry.GetMetaOrRegister(name, c)` is one `LoadOrStoreFn(name, build c)` on the registry's sync2.Map
+    (container/support/component_definition_registry.go:43-50; the regenerated primitive sequence [Load, f, LoadOrStore]).
+    Any number of callers of ONE name, any definitions they would build, any initial registry, any schedule: every caller
+    that has returned holds the definition the registry keeps under that name — so all of them hold the same one. -/
+theorem C20_getMetaOrRegister_one_definition (k : Nat) (m0 : MapSt) (queue : Nat → List Op)
+    (hq : ∀ t op, op ∈ queue t → ∃ v, op = .loadOrStoreFn k v) (sched : List Nat) :
+    ∀ e, e ∈ (run factProgs (Sys.start m0 queue) sched).hist →
+      ∃ w l, e.2.2 = .got (some w) l ∧ (run factProgs (Sys.start m0 queue) sched).map k = some w := by
+  have hex := C20_loadOrStoreFn_linearizable m0 queue (fun t op h => Or.inr (let ⟨v, hv⟩ := hq t op h; ⟨k, v, hv⟩)) sched
+  have hops := hist_ops_from_queue factProgs (fun op => ∃ v, op = .loadOrStoreFn k v) sched (Sys.start m0 queue) hq
+    (by intro t c hc; simp [Sys.start] at hc) (by intro e he; simp [Sys.start] at he)
+  exact seq_all_kept k m0 _ _ hex hops
+
+/-- … whereas a check-then-act (look the name up, build, Store — the pre-repair primitive sequence [Load, f, Store]) hands
+    two callers that both pass the lookup two DIFFERENT definitions, and the registry keeps only the last one. -/
+theorem C20_getMetaOrRegister_check_then_act_counterexample :
+    gotVals (run oldProgs (Sys.start emptyMap (gmorQueues 2)) (gmorSched 2)).hist = [11, 10] ∧
+    (run oldProgs (Sys.start emptyMap (gmorQueues 2)) (gmorSched 2)).map 1 = some 11 := by
+  decide
+
+-- the run the driver makes for `gmor 3 …`: three callers, all past the Load before the first LoadOrStore: one definition,
+-- listed once, held by everybody (and the hypotheses of C20_getMetaOrRegister_one_definition hold for these queues)
+example : gmorObs 3 = (1, 1, true) := by decide
+example : ∀ t op, op ∈ gmorQueues 3 t → ∃ v, op = .loadOrStoreFn 1 v := by
+  intro t op h
+  unfold gmorQueues at h
+  split at h
+  · simp only [List.mem_singleton] at h; exact ⟨10 + t, h⟩
+  · simp at h
+
+-- the run the driver makes for `closel 3 5 … 7`: closers 0 and 2 fail; at the return of Close both reports are complete
+example : reported 3 (fun i => (5 : Nat).testBit i) (schedule closeCfg 3 (fun i => (5 : Nat).testBit i) 200 7 init) = 2 ∧
+    (schedule closeCfg 3 (fun i => (5 : Nat).testBit i) 200 7 init).mainPc = 3 := by decide
 
 end Ioc.C20
